@@ -420,9 +420,33 @@ Fixpoint captured_by_name (v : bytes) (caps : list (bytes * mnode)) : option mno
 
 Definition ccaps_of (caps : list (bytes * mnode)) : list ccap := map (fun p => (fst p, n_text (snd p), n_fix (snd p))) caps.
 
+(* CapturedByName as handleMatch uses it for At(): "$$" is the match itself; a capture that matched nothing (an empty `$*xs`
+   list, a typed nil) has no position to report at -- the match is reported then. File offsets are >= 0, a negative n_pos
+   stands for token.NoPos. *)
+Definition dollar_dollar : bytes := [36; 36].
+Definition absent (nd : mnode) : bool := n_pos nd <? 0.
+Definition loc_node (v : bytes) (whole : mnode) (caps : list (bytes * mnode)) : option mnode :=
+  if bytes_eqb v dollar_dollar then Some whole
+  else match captured_by_name v caps with
+       | Some nd => Some (if absent nd then whole else nd)
+       | None => None
+       end.
+
+Lemma loc_node_whole whole caps : loc_node dollar_dollar whole caps = Some whole.
+Proof. unfold loc_node. rewrite (proj2 (bytes_eqb_eq _ _) eq_refl). reflexivity. Qed.
+
+Lemma loc_node_capture v whole caps nd :
+  v <> dollar_dollar -> captured_by_name v caps = Some nd ->
+  loc_node v whole caps = Some (if absent nd then whole else nd).
+Proof.
+  intros Hv Hc. unfold loc_node. destruct (bytes_eqb v dollar_dollar) eqn:E.
+  - apply bytes_eqb_eq in E. contradiction.
+  - rewrite Hc. reflexivity.
+Qed.
+
 (* None = the At() variable is not bound (rejected at load time by a separate check, C06) *)
 Definition mk_report (r : mrule) (l : Z) (whole : mnode) (caps : list (bytes * mnode)) : option mreport :=
-  match (match r_loc r with None => Some whole | Some v => captured_by_name v caps end) with
+  match (match r_loc r with None => Some whole | Some v => loc_node v whole caps end) with
   | None => None
   | Some node =>
       let msg := render_msg (Some l) (ccaps_of caps) (n_text whole) (n_fix whole) (r_msg r) in
@@ -432,16 +456,16 @@ Definition mk_report (r : mrule) (l : Z) (whole : mnode) (caps : list (bytes * m
               rep_line := r_line r |}
   end.
 
-(* at_relocates / suggestion_range: the reported node is the At() capture when given, else the whole match, and a
-   suggestion replaces exactly the reported node's byte range *)
+(* at_relocates / suggestion_range: the reported node is the At() capture when given (the match itself for "$$" and for a capture
+   that matched nothing), else the whole match, and a suggestion replaces exactly the reported node's byte range *)
 Theorem at_relocates r l whole caps rep :
   mk_report r l whole caps = Some rep ->
-  exists node, (match r_loc r with None => node = whole | Some v => captured_by_name v caps = Some node end) /\
+  exists node, (match r_loc r with None => node = whole | Some v => loc_node v whole caps = Some node end) /\
                rep_pos rep = n_pos node /\ rep_end rep = n_end node /\
                (forall f t s, rep_sugg rep = Some (f, t, s) -> f = n_pos node /\ t = n_end node).
 Proof.
   unfold mk_report. destruct (r_loc r) as [v|].
-  - destruct (captured_by_name v caps) as [node|] eqn:E; [|discriminate]. intros [= <-]. exists node. cbn.
+  - destruct (loc_node v whole caps) as [node|] eqn:E; [|discriminate]. intros [= <-]. exists node. cbn.
     repeat split; auto; destruct (match r_sugg r with [] => [] | _ => _ end); congruence.
   - intros [= <-]. exists whole. cbn.
     repeat split; auto; destruct (match r_sugg r with [] => [] | _ => _ end); congruence.
